@@ -8,6 +8,7 @@ In-spec joint actions are `action : List Nat` with every component `< 4`; they r
 import JumanjiModel.Env.Cleaner.Lemmas
 import JumanjiModel.Env.Cleaner.BoundsLemmas
 import JumanjiModel.Env.Cleaner.EpisodeLemmas
+import JumanjiModel.Env.Cleaner.GenLemmas
 open Jm Cleaner
 
 namespace Props.CleanerEx
@@ -219,6 +220,108 @@ theorem cleaner_clean_refines (g : Jx.Grid Int) (locs : List Pos) (h : ∀ p ∈
 
 example : Consistent CleanerEx.cfg CleanerEx.st ∧ ∀ a ∈ [1, 3], a < 4 := by decide +kernel
 end Props.C09
+
+namespace Props.C10
+/-!
+The Cleaner generator draws a recursive-division maze with the generator it shares with Maze
+(`maze_generation.generate_maze`, certificate `MazeGen.isRecursiveDivisionMaze`, theorems
+`maze_connected_of_cert`, `maze_chamber_connected`), recodes it (`generate`), and `reset` adds the mask.
+`resetCert cfg s` is the decidable certificate the driver evaluates on every reset state of the implementation
+(`cleaner.instance`, key `reset_cert`; key `generate_matches` checks that the reset state IS
+`reset cfg (generate cfg walls)` for its own wall map).
+-/
+
+/-- the documented reset state: a certified reset state has all agents on `(0, 0)`, that tile is CLEAN (hence
+free), every other tile of the grid is DIRTY or a WALL (all other free tiles are dirty), the walls form a
+recursive-division maze of the configured size, the step counter is 0, the stored mask is the mask of the
+rules; the state is `Consistent` (so `cleaner_step_consistent` applies along every episode) -/
+theorem cleaner_reset_cert (cfg : Cfg) (s : State) (h : resetCert cfg s = true) :
+    s.agents = List.replicate cfg.numAgents (0, 0) ∧
+    free cfg s.grid (0, 0) ∧ tile s.grid (0, 0) = CLEAN ∧
+    (∀ p, inGrid cfg p → p ≠ (0, 0) → tile s.grid p = DIRTY ∨ tile s.grid p = WALL) ∧
+    (∀ p, free cfg s.grid p → p ≠ (0, 0) → tile s.grid p = DIRTY) ∧
+    MazeGen.isRecursiveDivisionMaze (wallMap s.grid) cfg.numRows cfg.numCols = true ∧
+    s.stepCount = 0 ∧ s.actionMask = legalMask cfg s.grid s.agents ∧ Consistent cfg s := by
+  obtain ⟨_, _, h3, h4, h5, h6, h7, h8⟩ := Cleaner.resetCert_parts h
+  refine ⟨h4, Cleaner.origin_free_of_cert h, h5, fun p hp hne => Cleaner.othersDirty_spec h6 hp hne, ?_, h3, h7, h8,
+    (Cleaner.cert_consistent h).1⟩
+  intro p hp hne
+  rcases Cleaner.othersDirty_spec h6 hp.1 hne with hd | hw
+  · exact hd
+  · exact absurd hw hp.2
+
+/-- the transliterated generator passes the certificate for EVERY draw: whatever recursive-division maze of
+the configured size (at least 1×1) the shared maze generator delivers, `reset cfg (generate cfg maze)` is a
+certified reset state whose walls are exactly the drawn maze (walls as generated) -/
+theorem cleaner_generate_cert (cfg : Cfg) (maze : Jx.Grid Bool) (hr : 0 < cfg.numRows) (hc : 0 < cfg.numCols)
+    (hm : MazeGen.isRecursiveDivisionMaze maze cfg.numRows cfg.numCols = true) :
+    resetCert cfg (Cleaner.reset cfg (generate cfg maze)).1 = true ∧
+    wallMap (Cleaner.reset cfg (generate cfg maze)).1.grid = maze :=
+  Cleaner.generate_cert cfg maze hr hc hm
+
+/-- certificate ⇒ every free tile — in particular every dirty tile — is 4-connected to the start tile `(0, 0)`
+through free tiles of the grid (`Reach ok p q`: a chain of moves up/right/down/left, every intermediate
+position satisfying `ok`); more generally any two free tiles are connected -/
+theorem cleaner_connected_of_cert (cfg : Cfg) (s : State) (h : resetCert cfg s = true) :
+    (∀ q, free cfg s.grid q → Cleaner.Reach (free cfg s.grid) (0, 0) q) ∧
+    (∀ q, inGrid cfg q → tile s.grid q = DIRTY → Cleaner.Reach (free cfg s.grid) (0, 0) q) ∧
+    (∀ p q, free cfg s.grid p → free cfg s.grid q → Cleaner.Reach (free cfg s.grid) p q) :=
+  ⟨Cleaner.connected_of_cert h,
+   fun q hq hd => Cleaner.connected_of_cert h q ⟨hq, by rw [hd]; decide⟩,
+   Cleaner.conn_of_cert h⟩
+
+/-- one edge of the free-cell graph is one L1 `step`: when all agents stand on `p` in a consistent state and
+direction `a` leads to a free tile, the joint action "everybody plays `a`" is legal for every agent, moves
+every agent to `dest p a`, cleans that tile and changes no other tile -/
+theorem cleaner_step_along_edge (cfg : Cfg) (s : State) (p : Pos) (hC : Consistent cfg s)
+    (hag : s.agents = List.replicate cfg.numAgents p) (a : Nat) (hl : legalAt cfg s.grid p a) :
+    (∀ b ∈ legalJoint cfg s (List.replicate cfg.numAgents a), b = true) ∧
+    (step cfg s ((List.replicate cfg.numAgents a).map Int.ofNat)).1.agents
+      = List.replicate cfg.numAgents (dest p a) ∧
+    Consistent cfg (step cfg s ((List.replicate cfg.numAgents a).map Int.ofNat)).1 ∧
+    (∀ x, inGrid cfg x →
+      tile (step cfg s ((List.replicate cfg.numAgents a).map Int.ofNat)).1.grid x = tile s.grid x ∨
+      (tile s.grid x ≠ WALL ∧
+        tile (step cfg s ((List.replicate cfg.numAgents a).map Int.ofNat)).1.grid x = CLEAN)) := by
+  obtain ⟨k1, k2, k3⟩ := Cleaner.pack_step (p := p) ⟨hC, hag⟩ hl
+  exact ⟨k1, k2.2, k2.1, k3⟩
+
+/-- certificate ⇒ every tile can be cleaned: from a certified reset state with at least one agent there EXISTS
+a sequence of joint actions for the L1 `step` (the agents move together; with one agent: a plain action
+sequence) such that every component is in `0..3` (`InSpec`), every component is legal in the state in which
+it is played (`AllLegal`: no step of the walk ends the episode by an invalid move), and after it no DIRTY tile
+is left.  Existence by connectivity (no explicit walk is constructed). -/
+theorem cleaner_all_cleanable (cfg : Cfg) (s : State) (h : resetCert cfg s = true) (hn : 0 < cfg.numAgents) :
+    ∃ as : List (List Nat), InSpec cfg as ∧ AllLegal cfg s as ∧
+      countTiles DIRTY (runState cfg s (toInt as)).grid = 0 :=
+  Cleaner.all_cleanable h hn
+
+/-- a 3×5 recursive-division maze, one agent: the generated reset state is certified -/
+def cleanerGenCfg : Cfg := { numRows := 3, numCols := 5, numAgents := 1, timeLimit := 15, penalty := 1/2 }
+def cleanerGenMaze : Jx.Grid Bool :=
+  [[false, true, false, true, false],
+   [false, true, false, true, false],
+   [false, false, false, false, false]]
+example : MazeGen.isRecursiveDivisionMaze cleanerGenMaze 3 5 = true := by decide
+example : resetCert cleanerGenCfg (Cleaner.reset cleanerGenCfg (generate cleanerGenCfg cleanerGenMaze)).1 = true := by
+  decide +kernel
+example : (Cleaner.reset cleanerGenCfg (generate cleanerGenCfg cleanerGenMaze)).1.grid =
+    [[1, 2, 0, 2, 0], [0, 2, 0, 2, 0], [0, 0, 0, 0, 0]] := by decide +kernel
+/-- a concrete cleaning walk on it (down, down, right, right, up, up, down, down, right, right, up, up) -/
+example : countTiles DIRTY (runState cleanerGenCfg
+      (Cleaner.reset cleanerGenCfg (generate cleanerGenCfg cleanerGenMaze)).1
+      (toInt [[2], [2], [1], [1], [0], [0], [2], [2], [1], [1], [0], [0]])).grid = 0 := by decide +kernel
+/-- the certificate rejects a reset state whose second agent does not start on the origin, and one with a
+pre-cleaned tile -/
+def cleanerBadAgents : State :=
+  { grid := [[1, 0, 2], [0, 0, 0]], agents := [(0, 0), (1, 1)],
+    actionMask := [[false, true, true, false], [true, true, false, true]], stepCount := 0 }
+def cleanerBadClean : State :=
+  { grid := [[1, 0, 2], [0, 1, 0]], agents := [(0, 0), (0, 0)],
+    actionMask := [[false, true, true, false], [false, true, true, false]], stepCount := 0 }
+example : resetCert CleanerEx.cfg cleanerBadAgents = false := by decide +kernel
+example : resetCert CleanerEx.cfg cleanerBadClean = false := by decide +kernel
+end Props.C10
 
 namespace Props.C01
 /-- the reset observation (generator output `g`, mask recomputed, `restart`) has every leaf inside the interval
